@@ -11,6 +11,7 @@ import (
 	"encoding/json"
 	"errors"
 	"fmt"
+	"os"
 	"sort"
 	"strings"
 	"unsafe"
@@ -41,10 +42,11 @@ const T0 = 1700000000000
 const (
 	opFail = "C-" // completion that counts against the breaker
 	opOK   = "C+"
-	opPass = "P" // TryPass
-	opTick = "T" // clock += retry
-	opTic1 = "t" // clock += 1
-	opEntr = "E" // api.Entry("r") and, if admitted, Exit
+	opPass = "P"  // TryPass
+	opTick = "T"  // clock += retry
+	opTic1 = "t"  // clock += 1
+	opTicM = "T-" // clock += retry - 1 (together with "t": one full retry timeout, in two parts)
+	opEntr = "E"  // api.Entry("r") and, if admitted, Exit
 )
 
 type Scen struct {
@@ -261,6 +263,9 @@ func (s *Scen) threads() []func() {
 				case opTic1:
 					vsched.Point(vsched.KUser, nil)
 					s.setClock(s.now + 1)
+				case opTicM:
+					vsched.Point(vsched.KUser, nil)
+					s.setClock(s.now + retry - 1)
 				}
 			}
 			s.curStep[ti] = len(s.Progs[ti])
@@ -453,6 +458,9 @@ func scenarios(quick bool) []*Scen {
 		{"open-due", 0, [][]string{{opPass}, {opPass, opOK}, {opFail}}}, // a whole round fits between a caller's check and its CAS
 		{"open-fresh", 0, [][]string{{opPass}, {opTick}, {opPass}}},
 		{"open-fresh", 0, [][]string{{opPass, opPass}, {opTick}}},
+		// a probe, a straggler that re-opens the breaker 1 ms later, and a request one retry timeout after the
+		// FIRST opening-to-half-open, i.e. 1 ms short of a full timeout since the re-opening
+		{"open-due", 0, [][]string{{opPass}, {opTic1, opFail}, {opTicM, opPass}}},
 		{"halfopen", 0, [][]string{{opFail}, {opOK}}},
 		{"halfopen", 0, [][]string{{opOK}, {opPass}}},
 		{"halfopen", 0, [][]string{{opFail}, {opPass}, {opTick}}},
@@ -571,7 +579,10 @@ func run(c *props.Ctx) {
 				bound = 3
 			}
 		}
-		res := sched.Explore(s.scenario(), sched.Options{Bound: bound, Deadline: c.Deadline, MaxExecs: 4000000})
+		res := sched.Explore(s.scenario(), sched.Options{Bound: bound, Deadline: c.Deadline, MaxExecs: 4000000, Classify: signature})
+		if dbg := os.Getenv("C12_DEBUG"); dbg != "" && strings.Contains(s.name(), dbg) {
+			fmt.Fprintf(os.Stderr, "C12 debug: %s execs=%d states=%d outcomes=%v err=%q cap=%q\n", s.name(), res.Execs, res.States, res.Outcomes, res.HarnessErr, res.CapHit)
+		}
 		c.R.Evaluations += int64(res.Execs)
 		c.R.Traces += int64(res.Execs)
 		c.R.Transitions += res.Steps
